@@ -194,7 +194,7 @@ LEVEL_TEXT = ("API level (Item::*); instruction level added separately. Machine-
               "insert at 0 < i < size equals the structurally defined replace_point, leaves the tree alone beyond the last point, makes a following traverse at i return the inserted item, "
               "keeps every point before i in place (ancestors of i contain the new subtree, all others are unchanged) and shifts the points after the replaced subtree by the size difference with unchanged values "
               "(C08_insert_spec, C08_insert_out_of_range_noop, C08_extract_after_insert, C08_insert_local); contains returns the index of the first structurally equal point, or nothing exactly when no point is equal "
-              "(C08_position_spec, C08_position_extract, C08_position_none_iff_absent, C08_position_finds_present for float-free items); container returns the list whose direct child is the first occurrence (C08_container_spec, C08_container_ok, C08_container_err_true_iff, C08_container_err_false_iff, C08_parent_point_is_parent); "
+              "(C08_position_spec, C08_position_extract, C08_position_none_iff_absent, C08_position_finds_present for float-free items); container returns the list whose direct child is the first occurrence (C08_container_spec, C08_container_ok, C08_container_err_true_iff, C08_container_err_false_iff, C08_parent_point_is_parent, C08_parent_is_smallest); "
               "substitute replaces all and only the maximal matches below the root (C08_subst_spec, C08_subst_only_matches). The theorems speak about the repaired insert/contains; the code of the pinned tree is kept as insert_pinned/contains_pinned and refuted by Examples. "
               "The model is tied to the code by running every tree with <= 6 points (thorough: 7) over two atom labels x every index in [0, 2*size] x every pattern with <= 3 points, plus random trees over all atom kinds, on the real functions and on the extracted model, "
               "and by evaluating the TreeSpec description directly on the implementation's outputs.")
